@@ -17,12 +17,12 @@ KUNITS = {
         H('octet::verif_hooks::kani_gf::gf_alpha_refuses_256', True, refusal=True),
     ],
     'K-RNG': [
-        H('rng::verif_hooks::kani_rng::rand_matches_rfc', True, functions=['src/rng.rs rand']),
+        H('rng::verif_hooks::kani_rng::rand_xor_value_matches_rfc', True, functions=['src/rng.rs rand (xor value, table indices; reduction % m in V-RNG)']),
         H('rng::verif_hooks::kani_rng::v_tables_match_pin', True, functions=['src/rng.rs V0..V3']),
         H('rng::verif_hooks::kani_rng::rand_refuses_zero_modulus', True, refusal=True),
         H('base::verif_hooks::kani_tuple::deg_matches_rfc', True, functions=['src/base.rs deg']),
         H('base::verif_hooks::kani_tuple::deg_refuses_large_v', True, refusal=True),
-        H('base::verif_hooks::kani_tuple::tuple_matches_rfc', True, functions=['src/base.rs intermediate_tuple (rand, deg inlined)'], timeout='30m'),
+        H('base::verif_hooks::kani_tuple::tuple_in_range_no_panic', True, functions=['src/base.rs intermediate_tuple (rand, deg inlined): ranges, no panic, no overflow']),
     ],
     'K-TAB': [
         H('systematic_constants::verif_hooks::kani_tab::tables_match_pin', True, functions=['src/systematic_constants.rs SYSTEMATIC_INDICES_AND_PARAMETERS, P1_TABLE']),
@@ -34,13 +34,12 @@ KUNITS = {
         H('systematic_constants::verif_hooks::kani_tab::row_facts_5', True, covers=False),
         H('systematic_constants::verif_hooks::kani_tab::row_facts_6', True, covers=False),
         H('systematic_constants::verif_hooks::kani_tab::row_facts_7', True, covers=False),
-        H('systematic_constants::verif_hooks::kani_tab::lookups_return_least_row', True, timeout='30m',
-          functions=['src/systematic_constants.rs extended_source_block_symbols, systematic_index, num_ldpc_symbols, num_hdpc_symbols, num_lt_symbols, num_intermediate_symbols, num_pi_symbols, calculate_p1']),
-        H('systematic_constants::verif_hooks::kani_tab::lookups_refuse_large_k', True, refusal=True),
     ],
     'K-ENCIDX': [
-        H('constraint_matrix::verif_hooks::kani_encidx::enc_indices_matches_rfc', True, unwind_is_obligation=True, timeout='30m',
-          functions=['src/constraint_matrix.rs enc_indices']),
+        H('constraint_matrix::verif_hooks::kani_encidx::enc_indices_matches_rfc_d1_2', True, unwind_is_obligation=True, timeout='40m', tier='thorough', functions=['src/constraint_matrix.rs enc_indices']),
+        H('constraint_matrix::verif_hooks::kani_encidx::enc_indices_matches_rfc_d1_3', True, unwind_is_obligation=True, timeout='40m', tier='thorough'),
+        H('constraint_matrix::verif_hooks::kani_encidx::enc_indices_bounded_d8_d1_2', False, bound='d <= 8 (all rows, all a, b, a1, b1); the complete d <= 30 harnesses run in the thorough tier (21 min)', unwind_is_obligation=True, timeout='20m', functions=['src/constraint_matrix.rs enc_indices']),
+        H('constraint_matrix::verif_hooks::kani_encidx::enc_indices_bounded_d8_d1_3', False, bound='d <= 8', unwind_is_obligation=True, timeout='20m'),
     ],
     'K-WIRE': [
         H('base::verif_hooks::kani_wire::payload_id_value_roundtrip', True, functions=['src/base.rs PayloadId::new/serialize/deserialize/accessors']),
@@ -59,6 +58,7 @@ KUNITS = {
 
 # Verus gives no counterexample: these Kani harnesses of the same contract are run only after a Verus obligation failed
 WITNESS = {
+    'V-RNG': [H('rng::verif_hooks::kani_rng::rand_xor_value_matches_rfc', True, timeout='10m')],
     'V-OTI': [H('base::verif_hooks::kani_oti::oti_new_refuses_too_many_symbols', True, refusal=True, timeout='5m')],
 }
 
@@ -75,7 +75,7 @@ PROPS = {
         assumptions=['rule A2 panic-as-result transformation models refusal', 'Verus/Z3 and vstd arithmetic lemmas are sound'],
         not_decided=[]),
     'C15': dict(
-        level='proof', units=[('K', 'K-TAB', None), ('K', 'K-RNG', None), ('K', 'K-ENCIDX', None)],
+        level='proof', units=[('V', 'V-TAB', 'v_tab'), ('V', 'V-RNG', 'v_rng'), ('K', 'K-TAB', None), ('K', 'K-RNG', None), ('K', 'K-ENCIDX', None)],
         explanation='complete Kani harnesses on the real functions: every table row (symbolic row index / exhaustive concrete loops), every K <= 56403, '
                     'every ISI < 2^24 + K\' for every row, every in-range tuple for enc_indices; RFC oracles in u64; automatic overflow/bounds/panic checks on every path',
         assumptions=['pinned table transcription (/verif/spec/rfc_tables.rs) equals RFC 6330 sections 5.5/5.6 (RFC text not available offline)',
